@@ -4,6 +4,7 @@ import (
 	"fmt"
 	"math/rand"
 	"net"
+	"strconv"
 	"strings"
 	"sync"
 	"sync/atomic"
@@ -43,6 +44,10 @@ type c07env struct {
 	val          int
 	flushStarted int64
 	flushDone    int64
+	emptyBody    bool
+	touched      int64
+	phantom      string
+	sent0        uint64
 }
 
 type c07peer struct{ e *c07env }
@@ -133,6 +138,10 @@ func (e *c07env) tm(t, r, shape string) *onet.TreeMarshal {
 		tm.Children = ot.MakeTreeMarshal().Children
 	case "unksrv":
 		tm.Children = []*onet.TreeMarshal{{TreeNodeID: onet.TreeNodeID(uuid.New()), ServerIdentityID: network.ServerIdentityID(uuid.New())}}
+	case "two":
+		// two top-level nodes: the good description twice
+		c := e.trees[src].MakeTreeMarshal().Children
+		tm.Children = append(append([]*onet.TreeMarshal{}, c...), c...)
 	}
 	return tm
 }
@@ -155,6 +164,9 @@ func (e *c07env) protoMsg(to *onet.Token, from *onet.Token, payload interface{},
 	}
 	if garbage {
 		buf = []byte{0xde, 0xad, 0xbe, 0xef, 1, 2, 3}
+	}
+	if e.emptyBody {
+		buf = nil
 	}
 	return &onet.ProtocolMsg{From: from, To: to, MsgSlice: buf, MsgType: network.MessageType(payload)}
 }
@@ -232,25 +244,29 @@ func (e *c07env) barrier(tok *onet.Token) error {
 }
 
 func (e *c07env) obs() string {
-	slot := func(t string) string { return strings.TrimSuffix(e.ov.VerifTreeState(e.treeID(t)), "+armed") }
+	slot := func(t string) string { return strings.Replace(e.ov.VerifTreeState(e.treeID(t)), "+armed", "+a", 1) }
 	parked := 0
 	for _, t := range []string{"K", "R", "U", "Z"} {
 		parked += e.ov.VerifPendingCount(e.treeID(t))
 	}
 	for _, rec := range fix.AllRecs() {
 		for _, d := range rec.Drain() {
-			if d.Ty == 3 {
-				e.mu.Lock()
-				e.delivered += len(d.Items)
-				e.mu.Unlock()
+			e.mu.Lock()
+			e.delivered += len(d.Items)
+			for _, it := range d.Items {
+				if it.Node == nil {
+					e.phantom = fmt.Sprintf("a delivery of kind %d (%d senders) names a sender without tree node", d.Ty, len(d.Items))
+				}
 			}
+			e.mu.Unlock()
 		}
 	}
 	held := e.ov.VerifTryLocks()
 	e.mu.Lock()
 	defer e.mu.Unlock()
-	return fmt.Sprintf("K=%s R=%s U=%s Z=%s parked=%d live=%d handed=%d delivered=%d replies=%d lock=%d",
-		slot("K"), slot("R"), slot("U"), slot("Z"), parked, e.ov.VerifInstanceCount()-1, e.handed, e.delivered, e.replies, len(held))
+	return fmt.Sprintf("K=%s R=%s U=%s Z=%s parked=%d live=%d handed=%d delivered=%d replies=%d sent=%d ptm=%d cfg=%d marks=%d lock=%d",
+		slot("K"), slot("R"), slot("U"), slot("Z"), parked, e.ov.VerifInstanceCount()-1, e.handed, e.delivered, e.replies,
+		e.cl.Servers[1].MsgTx()-e.sent0, e.ov.VerifPendingTreeMarshals(), e.ov.VerifPendingConfigs(), e.ov.VerifDoneMarks(), len(held))
 }
 
 func (e *c07env) waitReplies(want int, d time.Duration) bool {
@@ -295,9 +311,21 @@ func c07exec(c *h.Ctx, cs *h.Case) {
 	e.toks["run"], e.toks["done"], e.toks["freshK"], e.toks["freshR"], e.toks["freshU"] = mk("K"), mk("K"), mk("K"), mk("R"), mk("U")
 	e.toks["canary"] = mk("K")
 	e.syncTok = mk("K")
+	noProto := onet.ProtocolNameToID("VerifNoSuchProtocol")
+	for _, t := range []string{"K", "R", "U"} {
+		bt := mk(t)
+		bt.ProtoID = noProto
+		e.toks["badproto"+t] = bt
+	}
 	fix.Prepare = func(rec *fix.Rec) {
+		// like a real protocol, the handlers look at the tree node of every sender they are given
+		rec.OnEnter = func(d fix.Delivery) {
+			for _, it := range d.Items {
+				atomic.AddInt64(&e.touched, int64(len(it.Node.Children)+1))
+			}
+		}
 		rec.OnAccept = func(msg *onet.ProtocolMsg) {
-			if _, ok := msg.Msg.(*fix.M3); ok {
+			if _, ok := msg.Msg.(*fix.MSync); !ok {
 				e.mu.Lock()
 				e.handed++
 				e.mu.Unlock()
@@ -352,6 +380,7 @@ func c07exec(c *h.Ctx, cs *h.Case) {
 	if st[2] == "afterdone" {
 		fix.RecOf(e.toks["done"]).Tni.Done()
 	}
+	e.sent0 = e.cl.Servers[1].MsgTx()
 	cs.Impl = append(cs.Impl, "ok")
 
 	tokOf := func(s string) (*onet.Token, string) {
@@ -368,8 +397,40 @@ func c07exec(c *h.Ctx, cs *h.Case) {
 			return e.toks[s], "R"
 		case "freshU":
 			return e.toks[s], "U"
+		case "badprotoK", "badprotoR", "badprotoU":
+			return e.toks[s], s[len(s)-1:]
+		case "badprotonewK", "badprotonewR", "badprotonewU":
+			// the same with a round id never seen before
+			t := e.toks["badproto"+s[len(s)-1:]].Clone()
+			t.RoundID = onet.RoundID(uuid.New())
+			return t, s[len(s)-1:]
 		}
 		return e.toks[s], "K"
+	}
+	// a node of the tree that the sending server (server 0) does not host
+	spoofNode := func(tn string) onet.TreeNodeID {
+		switch tn {
+		case "K":
+			return e.trees["K"].Root.Children[1].ID
+		}
+		return e.trees[tn].Root.Children[0].ID
+	}
+	payloadOf := func(b string) (interface{}, bool) {
+		e.val++
+		switch b {
+		case "1", "m3", "0", "empty":
+			return &fix.M3{V: e.val}, true
+		case "2", "m4":
+			return &fix.M4{V: e.val}, true
+		case "m1":
+			return &fix.M1{V: e.val}, true
+		case "m2":
+			return &fix.M2{V: e.val}, true
+		case "unh":
+			// a well-formed message of a registered type the protocol registered nothing for
+			return &onet.RequestTree{TreeID: e.treeID("K"), Version: 1}, true
+		}
+		return nil, false
 	}
 	for _, op := range cs.Ops[1:] {
 		tk := strings.Fields(op)
@@ -387,26 +448,39 @@ func c07exec(c *h.Ctx, cs *h.Case) {
 				round = to.RoundID
 			}
 			switch tk[3] {
+			case "none":
 			case "member":
 				from = e.member(e.trees[tn], round)
 			case "stranger":
 				from = e.member(e.trees[tn], round)
 				from.TreeNodeID = onet.TreeNodeID(uuid.New())
+			case "spoof":
+				from = e.member(e.trees[tn], round)
+				from.TreeNodeID = spoofNode(tn)
+			default:
+				cs.Impl = append(cs.Impl, "bad-op")
+				continue
 			}
-			e.val++
-			var pm *onet.ProtocolMsg
+			payload, ok := payloadOf(tk[4])
+			if !ok {
+				cs.Impl = append(cs.Impl, "bad-op")
+				continue
+			}
+			e.emptyBody = tk[4] == "empty"
+			pm := e.protoMsg(to, from, payload, tk[4] == "0")
+			e.emptyBody = false
 			if tk[4] == "2" {
-				// a well-formed message of another registered type, announced as the handled type
-				pm = e.protoMsg(to, from, &fix.M4{V: e.val}, false)
+				// announced as the plain handler type: the receive path takes the type of the decoded value
 				pm.MsgType = network.MessageType(&fix.M3{})
-			} else {
-				pm = e.protoMsg(to, from, &fix.M3{V: e.val}, tk[4] == "0")
 			}
 			err = e.send(onet.ProtocolMsgID, pm, 0)
 		case len(tk) == 4 && tk[1] == "reqtree":
 			v := uint32(1)
-			if tk[3] == "1" {
+			switch tk[3] {
+			case "1":
 				v = 0
+			case "2":
+				v = 7 // a version from the future: treated like the current one
 			}
 			if strings.HasPrefix(e.ov.VerifTreeState(e.treeID(tk[2])), "present") {
 				wantReplies = before + 1
@@ -432,9 +506,49 @@ func c07exec(c *h.Ctx, cs *h.Case) {
 			err = e.send(onet.RequestRosterMsgID, &onet.RequestRoster{RosterID: e.rosterID(tk[2])}, 0)
 		case len(tk) == 4 && tk[1] == "sendroster":
 			err = e.send(onet.SendRosterMsgID, e.roster(tk[2], tk[3]), 0)
-		case len(tk) == 3 && tk[1] == "config":
+		case len(tk) == 3 && tk[1] == "storm":
+			// concurrent envelopes: protocol messages for a protocol the server does not have (each lists an
+			// instance and unlists it again) while deprecated tree messages for the requested tree look
+			// through the listed instances
+			n, _ := strconv.Atoi(tk[2])
+			var wg sync.WaitGroup
+			for w := 0; w < 6; w++ {
+				wg.Add(1)
+				go func(w int) {
+					defer wg.Done()
+					for i := w / 2; i < n; i += 3 {
+						if w%2 == 0 {
+							to := e.toks["badprotoK"].Clone()
+							to.RoundID = onet.RoundID(uuid.New())
+							buf, _ := network.Marshal(&fix.M3{V: 1})
+							pm := &onet.ProtocolMsg{From: e.member(e.trees["K"], to.RoundID), To: to, MsgSlice: buf, MsgType: network.MessageType(&fix.M3{})}
+							e.ov.Process(&network.Envelope{ServerIdentity: e.cl.SI(0), MsgType: onet.ProtocolMsgID, Msg: pm})
+						} else {
+							e.ov.Process(&network.Envelope{ServerIdentity: e.cl.SI(0), MsgType: onet.SendTreeMsgID, Msg: e.tm("R", "roK", "empty")})
+						}
+					}
+				}(w)
+			}
+			wg.Wait()
+		case (len(tk) == 3 || len(tk) == 4) && tk[1] == "config":
 			if tk[2] == "1" {
-				err = e.send(onet.ConfigMsgID, &onet.ConfigMsg{Config: onet.GenericConfig{Data: []byte("cfg")}, Dest: e.toks["freshK"].ID()}, 0)
+				dest := e.toks["freshK"].ID()
+				if len(tk) == 4 {
+					switch tk[3] {
+					case "zero":
+						dest = onet.TokenID{}
+					case "junk":
+						dest = onet.TokenID(uuid.New())
+					default:
+						t, ok := e.toks[tk[3]]
+						if !ok {
+							cs.Impl = append(cs.Impl, "bad-op")
+							continue
+						}
+						dest = t.ID()
+					}
+				}
+				err = e.send(onet.ConfigMsgID, &onet.ConfigMsg{Config: onet.GenericConfig{Data: []byte("cfg")}, Dest: dest}, 0)
 			} else if !e.wire {
 				e.ov.Process(&network.Envelope{ServerIdentity: e.cl.SI(0), MsgType: onet.ConfigMsgID, Msg: &onet.RequestTree{}})
 			}
@@ -458,6 +572,9 @@ func c07exec(c *h.Ctx, cs *h.Case) {
 			time.Sleep(300 * time.Microsecond)
 		}
 		o := e.obs()
+		if e.phantom != "" {
+			cs.Fail("phantom-sender-delivered", fmt.Sprintf("after %q: %s", op, e.phantom))
+		}
 		if held := e.ov.VerifTryLocks(); len(held) > 0 {
 			cs.Fail("lock-held:"+strings.Join(held, ","), fmt.Sprintf("after %q the server holds %v", op, held))
 		}
@@ -467,20 +584,36 @@ func c07exec(c *h.Ctx, cs *h.Case) {
 	e.mu.Lock()
 	d0 := e.delivered
 	e.mu.Unlock()
-	e.send(onet.ProtocolMsgID, legit("canary"), 0)
-	ok := false
-	for dl := time.Now().Add(5 * time.Second); time.Now().Before(dl) && !ok; time.Sleep(300 * time.Microsecond) {
-		if rec := fix.RecOf(e.toks["canary"]); rec != nil {
-			for _, d := range rec.Drain() {
-				if d.Ty == 3 {
-					ok = true
+	_ = d0
+	// a new run on the known tree: one message of every kind the protocol registers (plain / aggregated,
+	// handler / channel) from the legitimate sender must reach the protocol
+	waitDelivery := func(tok string, ty int) bool {
+		for dl := time.Now().Add(5 * time.Second); time.Now().Before(dl); time.Sleep(300 * time.Microsecond) {
+			if rec := fix.RecOf(e.toks[tok]); rec != nil {
+				for _, d := range rec.Drain() {
+					if d.Ty == ty {
+						return true
+					}
 				}
 			}
 		}
+		return false
 	}
-	_ = d0
-	if !ok {
-		cs.Fail("canary-run", "a legitimate protocol message of a new run on the known tree was not delivered within 5 s")
+	for _, ty := range []int{3, 1, 2, 4} {
+		e.val++
+		ct := e.toks["canary"]
+		e.send(onet.ProtocolMsgID, e.protoMsg(ct, e.member(e.trees["K"], ct.RoundID), fix.Payload(ty, e.val), false), 0)
+		if !waitDelivery("canary", ty) {
+			cs.Fail("canary-run", fmt.Sprintf("a legitimate protocol message (kind %d) of a new run on the known tree was not delivered within 5 s", ty))
+			break
+		}
+	}
+	if st[2] == "midrun" {
+		// the run that was going on goes on
+		e.send(onet.ProtocolMsgID, legit("run"), 0)
+		if !waitDelivery("run", 3) {
+			cs.Fail("canary-running-instance", "a legitimate message for the instance that was running before the sequence was not delivered within 5 s")
+		}
 	}
 	e.mu.Lock()
 	r0 := e.replies
@@ -492,6 +625,13 @@ func c07exec(c *h.Ctx, cs *h.Case) {
 	e.send(onet.RequestRosterMsgID, &onet.RequestRoster{RosterID: e.rosterID("roK")}, 0)
 	if !e.waitReplies(r0+2, 5*time.Second) {
 		cs.Fail("canary-roster-request", "a legitimate roster request was not answered within 5 s")
+	}
+	e.send(onet.RequestTreeMsgID, &onet.RequestTree{TreeID: e.treeID("K"), Version: 0}, 0)
+	if !e.waitReplies(r0+3, 5*time.Second) {
+		cs.Fail("canary-tree-request", "a legitimate tree request of a peer speaking the old version was not answered within 5 s")
+	}
+	if held := e.ov.VerifTryLocks(); len(held) > 0 {
+		cs.Fail("lock-held:"+strings.Join(held, ","), fmt.Sprintf("after the canaries the server holds %v", held))
 	}
 	if t := e.ov.VerifTree(e.treeID("K")); t == nil || len(t.Root.Children) != 2 {
 		cs.Fail("known-tree-replaced", "the tree the server knew was removed or replaced")
@@ -571,22 +711,29 @@ func c07gen(c *h.Ctx, yield func(*h.Case)) {
 	r := c.Rng
 	states := []string{"idle", "midrun", "afterdone"}
 	var envs []string
-	for _, to := range []string{"none", "zero", "run", "done", "badnode", "freshK", "freshR", "freshU"} {
+	for _, to := range []string{"run", "done", "freshK", "freshR", "freshU"} {
+		for _, f := range []string{"none", "member", "stranger", "spoof"} {
+			for _, b := range []string{"1", "0", "2", "m1", "m2", "unh", "empty"} {
+				envs = append(envs, fmt.Sprintf("c07 proto %s %s %s", to, f, b))
+			}
+		}
+	}
+	for _, to := range []string{"none", "zero", "badnode", "badprotoK", "badprotoR", "badprotoU", "badprotonewK", "badprotonewU"} {
 		for _, f := range []string{"none", "member", "stranger"} {
-			for _, b := range []string{"1", "0", "2"} {
+			for _, b := range []string{"1", "0", "m1", "unh"} {
 				envs = append(envs, fmt.Sprintf("c07 proto %s %s %s", to, f, b))
 			}
 		}
 	}
 	for _, t := range []string{"K", "R", "U", "Z"} {
-		for _, v := range []string{"0", "1"} {
+		for _, v := range []string{"0", "1", "2"} {
 			envs = append(envs, fmt.Sprintf("c07 reqtree %s %s", t, v))
 		}
 	}
 	var tms []string
 	for _, t := range []string{"K", "R", "U", "Z"} {
 		for _, ro := range []string{"roR", "roK", "roX", "roZ"} {
-			for _, sh := range []string{"good", "empty", "unksrv", "other"} {
+			for _, sh := range []string{"good", "empty", "unksrv", "other", "two"} {
 				tms = append(tms, fmt.Sprintf("%s %s %s", t, ro, sh))
 			}
 		}
@@ -608,6 +755,9 @@ func c07gen(c *h.Ctx, yield func(*h.Case)) {
 		envs = append(envs, "c07 sendroster "+ro+" 1", "c07 sendroster "+ro+" 0", "c07 sendroster "+ro+" 2", "c07 sendroster "+ro+" 3", "c07 sendroster "+ro+" 4")
 	}
 	envs = append(envs, "c07 config 1", "c07 config 0")
+	for _, d := range []string{"run", "done", "freshK", "freshR", "freshU", "badprotoK", "badprotoU", "zero", "junk"} {
+		envs = append(envs, "c07 config 1 "+d)
+	}
 	mode := func(i int) string {
 		switch i % 5 {
 		case 3:
@@ -624,6 +774,19 @@ func c07gen(c *h.Ctx, yield func(*h.Case)) {
 		{"c07 resptree K roK unksrv roK 1"}, {"c07 treemarshal R roR good", "c07 sendroster roR 1"},
 		{"c07 resptree K roK other roK 1"}, {"c07 resptree R roR good roR 2"}, {"c07 resptree R roR good roR 3"}, {"c07 resptree R roR good roR 4"},
 		{"c07 treemarshal R roX good", "c07 sendroster roX 3"}, {"c07 treemarshal R roX good", "c07 sendroster roX 2"},
+		// messages parked for two trees, one of them arrives; a parked message whose instance cannot be created
+		{"c07 proto freshU member 1", "c07 proto badprotoR member 1", "c07 proto zero member 1", "c07 resptree R roR good roR 1", "c07 proto freshR member m1"},
+		// a tree that arrives for a message of a protocol the server does not have: no instance, removal scheduled; a real run cancels it
+		{"c07 proto badprotoU member 1", "c07 resptree U roX good roX 1", "c07 proto badprotoU member 1", "c07 reqtree U 0", "c07 proto freshU member m2", "c07 proto badprotonewU member 1", "c07 proto freshU spoof m1"},
+		// a description waiting for its roster while the tree arrives by the other way
+		{"c07 treemarshal R roX good", "c07 resptree R roR good roR 1", "c07 sendroster roX 1", "c07 sendroster roX 1"},
+		// configs: stored, picked up by the instance they are for, random destinations pile up
+		{"c07 config 1 freshK", "c07 config 1 freshK", "c07 config 1 junk", "c07 config 1 zero", "c07 proto freshK member 1", "c07 config 1 run", "c07 proto run member 1", "c07 config 1 badprotoK", "c07 proto badprotoK member 1"},
+		// every payload kind at a leaf and at a node with one child, from the parent, a stranger, a node of another server
+		{"c07 proto freshK member m1", "c07 proto freshK stranger m1", "c07 proto freshK spoof m2", "c07 proto freshK member m2", "c07 proto freshK member unh", "c07 proto freshK member 2", "c07 proto freshK spoof 1"},
+		// aggregated kinds at a node with a child: a message of an unknown sender is a batch of its own
+		{"c07 proto freshU member 1", "c07 resptree U roX good roX 1", "c07 proto freshU stranger m1", "c07 proto freshU member m1", "c07 proto freshU stranger m2", "c07 proto freshU spoof m2", "c07 proto freshU member m2"},
+		{"c07 storm 240"},
 	} {
 		for _, m := range []string{"direct", "wire-local"} {
 			yield(&h.Case{Class: "corpus", Ops: append([]string{"c07 state idle " + m}, w...)})
@@ -647,6 +810,9 @@ func c07gen(c *h.Ctx, yield func(*h.Case)) {
 		ops := []string{fmt.Sprintf("c07 state %s %s", states[r.Intn(3)], m)}
 		for j := 0; j < 2+r.Intn(c.Pick(12, 30)); j++ {
 			e := envs[r.Intn(len(envs))]
+			if r.Intn(40) == 0 {
+				e = fmt.Sprintf("c07 storm %d", 30+r.Intn(90))
+			}
 			if m != "direct" && e == "c07 config 0" {
 				continue
 			}
